@@ -24,15 +24,19 @@ import (
 //	 5 Delete k          6 DeleteExpired      7 Flush             8 List
 //	 9 Count            10 MapToCache v0 v1 v2 d (vi < 0: key i absent)
 //	11 IsExpired k      12 Sleep ns          13 Await k maxwait (poll until key k is no longer stored)
+//	14 MapToCache {k0+i: val(vpat,i) | i<n} d  as [14 k0 n vpat d]   (ONE call, n-entry map)
+//	15 Set / 16 Update / 17 Delete of the n keys k0..k0+n-1 as [code k0 n vpat d]  (n calls)
+//	   val(vpat,i) = vpat+i if vpat > 0, else 0 ("") when i%5 == 2 and 100+i otherwise
 //
 // keys k ↦ "k<k>"; values: code 0 ↦ "", 1 ↦ "a", 2 ↦ "b", n ↦ "v<n>".
 //
 // observation = [clock records, modes 1 and 2] ++ main ++ kinds
 //
-//	clock record per non-Sleep op and one for the final observation:
-//	  [before after deadline]  (UnixNano minus a per-case base; deadline = the
-//	  stored deadline of the touched key read through the verif hook after a
-//	  storing call, -2 absent, 0 for other calls);  Await: [lastSeenStored firstSeenAbsent 0]
+//	clock record per non-Sleep call and one for the final observation:
+//	  [before after deadline]  (absolute UnixNano; deadline = the stored deadline
+//	  of the touched key read through the verif hook after a storing call, -2
+//	  absent, 0 for other calls);
+//	  Await: [lastSeenStored firstSeenAbsent machineTooSlow]  (-1 = never)
 //	main  = per-op results (nil ↦ 0, error ↦ 1 1, Get ↦ 0 v | 1 1, List ↦ n (k v)* sorted,
 //	        Count ↦ n, IsExpired ↦ 0|1) ++ Count, List, then Get and IsExpired of every key
 //	        (mode 2: only the Gets)
@@ -43,7 +47,7 @@ const (
 )
 
 var c08OpNames = []string{"?", "Set", "SetDefault", "Update", "Get", "Delete", "DeleteExpired", "Flush", "List",
-	"Count", "MapToCache", "IsExpired", "Sleep", "Await"}
+	"Count", "MapToCache", "IsExpired", "Sleep", "Await", "MapToCacheRange", "SetRange", "UpdateRange", "DeleteRange"}
 
 func c08Key(k int64) string { return "k" + strconv.FormatInt(k, 10) }
 
@@ -108,8 +112,9 @@ func c08ErrKind(err error) int64 {
 
 type c08Info struct {
 	stores, errs, removals, expiries, panics int
-	ambiguous                                bool // a stored deadline fell inside a call's bracket
-	late                                     bool // janitor: an expired entry outlived deadline + 2*interval + 20ms
+	ambiguous                                bool // a stored deadline fell inside a call's bracket; an Await gave up too early; late on a machine that was too slow
+	late                                     bool // janitor: an expired entry was still SEEN stored after deadline + 2*interval + 20ms
+	maxKeys                                  int
 	ops                                      []int64
 	kinds                                    []int64
 	finalCount                               int
@@ -129,20 +134,66 @@ func c08HookOf(c *cache.Cache[string, string]) c08Hook {
 
 func c08HavePresent() bool { return c08HookOf(cache.New[string, string](0, 0)) != nil }
 
-type c08Run struct {
-	c      *cache.Cache[string, string]
-	hook   c08Hook
-	mode   int64
-	ci     int64
-	base   int64
-	main   []int64
-	kinds  []int64
-	clk    []int64
-	seen   []int64 // every positive deadline observed so far (relative)
-	info   c08Info
+// a reference ticker with the cache's cleanup interval, run next to the
+// cache's own: when IT is delayed the machine is too loaded to blame the janitor
+type c08Ref struct {
+	mu     sync.Mutex
+	last   int64
+	maxGap int64
+	stop   chan struct{}
+	done   chan struct{}
 }
 
-func (r *c08Run) now() int64 { return time.Now().UnixNano() - r.base }
+func c08StartRef(ci int64) *c08Ref {
+	r := &c08Ref{last: time.Now().UnixNano(), stop: make(chan struct{}), done: make(chan struct{})}
+	go func() {
+		t := time.NewTicker(time.Duration(ci))
+		defer close(r.done)
+		for {
+			select {
+			case <-t.C:
+				now := time.Now().UnixNano()
+				r.mu.Lock()
+				if now-r.last > r.maxGap {
+					r.maxGap = now - r.last
+				}
+				r.last = now
+				r.mu.Unlock()
+			case <-r.stop:
+				t.Stop()
+				return
+			}
+		}
+	}()
+	return r
+}
+
+// the longest time the reference ticker went without firing, so far
+func (r *c08Ref) gap() int64 {
+	now := time.Now().UnixNano()
+	r.mu.Lock()
+	defer r.mu.Unlock()
+	g := r.maxGap
+	if now-r.last > g {
+		g = now - r.last
+	}
+	return g
+}
+
+type c08Run struct {
+	c     *cache.Cache[string, string]
+	hook  c08Hook
+	ref   *c08Ref
+	mode  int64
+	ci    int64
+	main  []int64
+	kinds []int64
+	clk   []int64
+	seen  []int64 // every positive deadline observed so far (relative)
+	info  c08Info
+}
+
+func (r *c08Run) now() int64 { return time.Now().UnixNano() }
 
 func (r *c08Run) err(e error) {
 	if e == nil {
@@ -196,16 +247,33 @@ func (r *c08Run) isExpired(k int64) {
 	r.main = append(r.main, b2i(b))
 }
 
-// deadline of key k as stored now (relative), -2 absent
+// deadline of key k as stored now, -2 absent
 func (r *c08Run) expOf(k int64) int64 {
 	e, ok := r.hook.VerifExpirations()[c08Key(k)]
 	if !ok {
 		return -2
 	}
-	if e > 0 {
-		return e - r.base
-	}
 	return e
+}
+
+func c08RngVal(vpat, i int64) int64 {
+	if vpat > 0 {
+		return vpat + i
+	}
+	if i%5 == 2 {
+		return 0
+	}
+	return 100 + i
+}
+
+func c08RngLen(n int64) int64 {
+	if n < 0 {
+		return 0
+	}
+	if n > 4096 {
+		return 4096
+	}
+	return n
 }
 
 func (r *c08Run) bracket(before, after int64) {
@@ -270,6 +338,19 @@ func (r *c08Run) call(op []int64) int64 {
 		}
 	case 11:
 		r.isExpired(a)
+	case 14:
+		n := c08RngLen(b)
+		m := make(map[string]string, n)
+		for i := int64(0); i < n; i++ {
+			m[c08Key(a+i)] = c08Val(c08RngVal(c, i))
+		}
+		r.err(r.c.MapToCache(m, time.Duration(d)))
+		if n == 1 {
+			stored = a
+		}
+		if n > 0 && r.info.errs == nerr {
+			r.info.stores++
+		}
 	default:
 		r.main = append(r.main, -999998)
 	}
@@ -286,7 +367,7 @@ func (r *c08Run) await(k, maxw int64) {
 	key := c08Key(k)
 	ex := int64(0)
 	if e, ok := r.hook.VerifExpirations()[key]; ok && e > 0 {
-		ex = e - r.base
+		ex = e
 	}
 	start := r.now()
 	tl, tg := int64(-1), int64(-1)
@@ -304,19 +385,24 @@ func (r *c08Run) await(k, maxw int64) {
 		}
 		time.Sleep(200 * time.Microsecond)
 	}
-	r.clk = append(r.clk, tl, tg, 0)
+	// the janitor is late iff the key was still SEEN stored after the bound
 	bound := ex + 2*r.ci + c08Slack
+	slow := int64(0)
+	if r.ref != nil && r.ref.gap() > r.ci+c08Slack/2 {
+		slow = 1
+	}
+	r.clk = append(r.clk, tl, tg, slow)
 	if tg >= 0 {
 		r.info.expiries++
-		if ex > 0 && tg > bound {
+	}
+	if ex > 0 && tl > bound {
+		if slow == 1 {
+			r.info.ambiguous = true // the machine was too slow to blame the janitor
+		} else {
 			r.info.late = true
 		}
-	} else if ex > 0 {
-		if tl > bound {
-			r.info.late = true
-		} else if tl > ex {
-			r.info.ambiguous = true // gave up too early to decide
-		}
+	} else if tg < 0 && ex > 0 && tl > ex {
+		r.info.ambiguous = true // gave up too early to decide
 	}
 }
 
@@ -346,7 +432,7 @@ func (r *c08Run) final(nk int64) {
 // c08RunOnce interprets one wire input against a fresh cache.
 func c08RunOnce(in []int64) ([]int64, c08Info) {
 	var info c08Info
-	if len(in) < 4 || (len(in)-4)%5 != 0 || in[0] < 0 || in[0] > 2 || in[3] < 0 || in[3] > 64 {
+	if len(in) < 4 || (len(in)-4)%5 != 0 || in[0] < 0 || in[0] > 2 || in[3] < 0 || in[3] > 4096 {
 		return []int64{-999998}, info
 	}
 	r := &c08Run{mode: in[0], ci: in[2]}
@@ -357,7 +443,36 @@ func c08RunOnce(in []int64) ([]int64, c08Info) {
 	} else if r.mode != 0 {
 		return []int64{-999997}, info // the timed streams need the hook
 	}
-	r.base = time.Now().UnixNano() - 1000000
+	if r.mode == 2 && r.ci > 0 {
+		r.ref = c08StartRef(r.ci)
+		defer func() { close(r.ref.stop); <-r.ref.done }()
+	}
+	one := func(op []int64) {
+		if r.mode == 0 {
+			r.call(op)
+			return
+		}
+		nerr := r.info.errs
+		before := r.now()
+		k := r.call(op)
+		after := r.now()
+		// the deadlines stored BEFORE this call decide whether the bracket is
+		// ambiguous: the call consults the old entry of its key, never the new one
+		r.bracket(before, after)
+		e := int64(0)
+		if k >= 0 {
+			e = r.expOf(k)
+			if e > 0 {
+				r.seen = append(r.seen, e)
+			}
+			if r.mode == 2 && e == -2 && r.info.errs == nerr {
+				// the call stored, but by the time the deadline was read the entry had
+				// expired and the janitor had removed it (slow machine): undecidable
+				r.info.ambiguous = true
+			}
+		}
+		r.clk = append(r.clk, before, after, e)
+	}
 	ops := in[4:]
 	panicked := try(func() {
 		for i := 0; i+5 <= len(ops); i += 5 {
@@ -372,21 +487,18 @@ func c08RunOnce(in []int64) ([]int64, c08Info) {
 				if r.mode == 2 {
 					r.await(op[1], op[2])
 				}
-			case r.mode == 0:
-				r.call(op)
-			default:
-				before := r.now()
-				k := r.call(op)
-				after := r.now()
-				e := int64(0)
-				if k >= 0 {
-					e = r.expOf(k)
-					if e > 0 {
-						r.seen = append(r.seen, e)
-					}
+			case op[0] >= 15 && op[0] <= 17:
+				// n single calls on consecutive keys
+				single := map[int64]int64{15: 1, 16: 3, 17: 5}[op[0]]
+				n := c08RngLen(op[2])
+				for j := int64(0); j < n; j++ {
+					one([]int64{single, op[1] + j, c08RngVal(op[3], j), op[4], 0})
 				}
-				r.clk = append(r.clk, before, after, e)
-				r.bracket(before, after)
+			default:
+				one(op)
+			}
+			if n := r.c.Count(); n > r.info.maxKeys {
+				r.info.maxKeys = n
 			}
 		}
 		r.final(in[3])
@@ -411,6 +523,7 @@ func c08RunRetry(in []int64) (obs []int64, info c08Info, attempts int) {
 		if len(in) == 0 || in[0] == 0 || attempts >= 3 || !(info.ambiguous || info.late) {
 			return
 		}
+		time.Sleep(time.Duration(attempts) * 2 * time.Millisecond)
 	}
 }
 
@@ -465,6 +578,12 @@ func describeC08(in []int64) string {
 			fmt.Fprintf(&sb, " Sleep(%s)", time.Duration(o[1]))
 		case 13:
 			fmt.Fprintf(&sb, " Await(%s gone, max %s)", c08Key(o[1]), time.Duration(o[2]))
+		case 14:
+			fmt.Fprintf(&sb, " MapToCache({%s..%s: pattern %d},%s)", c08Key(o[1]), c08Key(o[1]+c08RngLen(o[2])-1), o[3], c08Dur(o[4]))
+		case 15, 16:
+			fmt.Fprintf(&sb, " %s*%d(%s..,pattern %d,%s)", []string{"Set", "Update"}[o[0]-15], c08RngLen(o[2]), c08Key(o[1]), o[3], c08Dur(o[4]))
+		case 17:
+			fmt.Fprintf(&sb, " Delete*%d(%s..)", c08RngLen(o[2]), c08Key(o[1]))
 		default:
 			fmt.Fprintf(&sb, " %s()", name)
 		}
@@ -575,6 +694,16 @@ func c08CountCase(g *Gen, stream string, in []int64, info *c08Info) {
 	if info.panics > 0 {
 		g.Count("cases_with_panic")
 	}
+	switch k := info.maxKeys; {
+	case k >= 2000:
+		g.Count("max_keys_ge_2000")
+	case k >= 500:
+		g.Count("max_keys_500_1999")
+	case k >= 100:
+		g.Count("max_keys_100_499")
+	case k > 5:
+		g.Count("max_keys_6_99")
+	}
 	_ = stream
 }
 
@@ -610,16 +739,28 @@ func c08EmitTimed(g *Gen, stream string, scripts [][]int64, workers int) {
 		}()
 	}
 	wg.Wait()
+	// what is still undecided after three attempts under the load of the other
+	// workers is tried again, alone
+	for i := range scripts {
+		for extra := 0; extra < 3 && (out[i].info.ambiguous || out[i].info.late); extra++ {
+			g.Count(stream + "_serial_reruns")
+			o, inf := c08RunOnce(scripts[i])
+			out[i] = res{o, inf, out[i].attempts + 1}
+		}
+	}
 	for i, in := range scripts {
 		r := out[i]
 		if r.attempts > 1 {
 			g.Count(stream + "_reruns")
 		}
 		if r.info.ambiguous {
-			// wall-clock bracketing cannot decide this case: discarded
-			g.Count(stream + "_discarded_deadline_in_bracket")
+			// wall-clock bracketing cannot decide this case (a deadline inside a
+			// call's bracket, an Await that gave up too early, a late janitor on a
+			// machine whose reference ticker was late too): discarded
+			g.Count(stream + "_discarded_undecidable")
 			continue
 		}
+		g.Count(stream + "_decided")
 		if r.info.late {
 			g.Count(stream + "_janitor_late")
 		}
@@ -764,6 +905,147 @@ func genC08(g *Gen) {
 		}
 	}
 
+	// --- large (time-free): 100-2000 keys, MapToCache of hundreds of entries, Count/List afterwards ---
+	const maxI64, minI64 = int64(1<<63 - 1), int64(-1 << 63)
+	sizes := []int64{100, 257, 600, 2000}
+	if !g.Quick() {
+		sizes = []int64{100, 257, 600, 1000, 1500, 2000}
+	}
+	for _, n := range sizes {
+		for ci, c := range []cfg{{-1, 0}, {0, c08Hour}, {c08Hour, 0}} {
+			if n == 2000 && ci != int(g.Seed%3) && g.Quick() {
+				continue // one configuration at the largest size in the quick tier
+			}
+			d := []int64{0, -1, c08Hour}[(int(n)+ci)%3]
+			h := n / 2
+			ops := [][]int64{
+				c08Op(15, 0, n, 0, d), // n Sets, every fifth value rejected
+				c08Op(9, 0, 0, 0, 0),  // Count
+				c08Op(8, 0, 0, 0, 0),  // List
+				c08Op(14, h, n, 7, d), // MapToCache of n entries, the lower half has live keys: one joined error
+				c08Op(9, 0, 0, 0, 0),  // Count
+			}
+			if n < 1000 {
+				// MapToCache over everything, pattern shifted by one: fills the gaps left by rejected values, and fails
+				ops = append(ops, c08Op(14, 1, n+h-1, 0, -1))
+			}
+			ops = append(ops,
+				c08Op(6, 0, 0, 0, 0), // DeleteExpired: removes nothing
+				c08Op(9, 0, 0, 0, 0),
+				c08Op(17, h/2, h, 0, 0),     // h Deletes (some of missing keys)
+				c08Op(16, n, h, 3, c08Hour), // h Updates
+				c08Op(4, n+h-1, 0, 0, 0),    // Get of the last key
+				c08Op(5, n+h-1, 0, 0, 0),    // Delete it
+				c08Op(11, 0, 0, 0, 0),
+				c08Op(8, 0, 0, 0, 0), // List
+				c08Op(9, 0, 0, 0, 0),
+				c08Op(7, 0, 0, 0, 0), // Flush
+				c08Op(9, 0, 0, 0, 0),
+				c08Op(14, 0, n, 5, 0), // refill by one MapToCache without rejected values: nil
+				c08Op(9, 0, 0, 0, 0))
+			if n < 1000 {
+				ops = append(ops, c08Op(14, 0, n, 5, 0)) // again: every key is live, an error and no change
+			}
+			nk := n + h
+			if nk > 400 {
+				nk = 400 // List shows every key; Get/IsExpired of the first 400
+			}
+			c08Emit(g, "large", c08Input(0, c.e, c.ci, nk, ops))
+		}
+	}
+	nlarge := g.Pick(10, 80)
+	for i := 0; i < nlarge; i++ {
+		span := int64(100 + g.Rng.Intn(701))
+		if i%5 == 0 {
+			span = int64(800 + g.Rng.Intn(1201))
+		}
+		n := 6 + g.Rng.Intn(10)
+		ops := make([][]int64, 0, n+2)
+		ops = append(ops, c08Op(14+int64(g.Rng.Intn(2)), 0, span, int64(g.Rng.Intn(2)*9), rdurs[g.Rng.Intn(len(rdurs))]))
+		for j := 0; j < n; j++ {
+			k0 := g.Rng.Int63n(span)
+			ln := 1 + g.Rng.Int63n(span-k0+50)
+			if g.Rng.Intn(3) == 0 {
+				ln = 100 + g.Rng.Int63n(600)
+			}
+			d := rdurs[g.Rng.Intn(len(rdurs))]
+			vp := int64(g.Rng.Intn(3) * 11)
+			switch x := g.Rng.Intn(14); {
+			case x < 3:
+				ops = append(ops, c08Op(14, k0, ln, vp, d))
+			case x < 5:
+				ops = append(ops, c08Op(15, k0, ln, vp, d))
+			case x < 6:
+				ops = append(ops, c08Op(16, k0, ln, vp, d))
+			case x < 8:
+				ops = append(ops, c08Op(17, k0, ln, 0, 0))
+			case x < 9:
+				ops = append(ops, c08Op(6, 0, 0, 0, 0))
+			case x < 10:
+				ops = append(ops, c08Op(8, 0, 0, 0, 0))
+			case x < 12:
+				ops = append(ops, c08Op(9, 0, 0, 0, 0))
+			case x < 13:
+				ops = append(ops, c08Op(4, k0, 0, 0, 0), c08Op(11, k0, 0, 0, 0))
+			default:
+				if g.Rng.Intn(3) == 0 {
+					ops = append(ops, c08Op(7, 0, 0, 0, 0))
+				} else {
+					ops = append(ops, c08Op(5, k0, 0, 0, 0))
+				}
+			}
+		}
+		ops = append(ops, c08Op(9, 0, 0, 0, 0))
+		ci := int64(0)
+		if g.Rng.Intn(3) == 0 {
+			ci = c08Hour
+		}
+		nk := span + 50
+		if nk > 400 {
+			nk = 400
+		}
+		c08Emit(g, "large", c08Input(0, rcfg[g.Rng.Intn(len(rcfg))], ci, nk, ops))
+	}
+
+	// --- extreme (time-free): durations, default expiries, cleanup intervals, keys and values at the int64 limits ---
+	// (now + d overflows int64 for d > MaxInt64 - now: the stored deadline wraps to a negative number and the
+	// entry never expires; none of these histories gets near a deadline, 1 ns durations are in the timed part)
+	xd := []int64{maxI64, maxI64 - 1, minI64, minI64 + 1, 1 << 62, -(1 << 62), -2, 7e18, 8e18, maxI64 - 1790000000000000000}
+	xe := []int64{maxI64, minI64, maxI64 - 5, 1 << 62, -2, 0}
+	xci := []int64{0, maxI64, minI64, -1}
+	xk := []int64{maxI64, minI64, -1, 0}
+	xv := []int64{maxI64, minI64, -1, 1}
+	for ei, e := range xe {
+		for cii, ci := range xci {
+			for di, d := range xd {
+				k := xk[(ei+di)%len(xk)]
+				v := xv[(cii+di)%len(xv)]
+				nd := -d // -MinInt64 is MinInt64
+				if nd > 0 && nd < c08Hour {
+					nd = c08Hour // nothing in a time-free history gets near a deadline
+				}
+				ops := [][]int64{
+					c08Op(1, 0, v, d, 0),  // Set k0 v d
+					c08Op(2, 1, 1, 0, 0),  // SetDefault k1 a
+					c08Op(3, k, v, d, 0),  // Update k v d   (k at a limit)
+					c08Op(4, 0, 0, 0, 0),  // Get k0
+					c08Op(11, 0, 0, 0, 0), // IsExpired k0
+					c08Op(11, 1, 0, 0, 0), // IsExpired k1
+					c08Op(6, 0, 0, 0, 0),  // DeleteExpired
+					c08Op(9, 0, 0, 0, 0),  // Count
+					c08Op(10, 1, 2, 1, d), // MapToCache {k0:a,k1:b,k2:a} d: k0, k1 live
+					c08Op(1, 0, 2, d, 0),  // Set k0 again: exists
+					c08Op(4, k, 0, 0, 0),  // Get k
+					c08Op(8, 0, 0, 0, 0),  // List
+					c08Op(5, k, 0, 0, 0),  // Delete k
+					c08Op(3, 0, 0, d, 0),  // Update k0 "": rejected
+					c08Op(3, 0, v, nd, 0), // Update k0 v -d
+				}
+				c08Emit(g, "extreme", c08Input(0, e, ci, 3, ops))
+			}
+		}
+	}
+
 	if !have {
 		return
 	}
@@ -771,17 +1053,18 @@ func genC08(g *Gen) {
 	// --- timed, no janitor: deadlines of 2-3 ms, sleeps of 6 ms ---
 	ms := int64(time.Millisecond)
 	timedAl := [][]int64{
-		c08Op(1, 0, 1, 3*ms, 0),       // Set k0 a 3ms
-		c08Op(1, 0, 2, 0, 0),          // Set k0 b default
-		c08Op(3, 0, 2, 2*ms, 0),       // Update k0 b 2ms
-		c08Op(1, 1, 1, -1, 0),         // Set k1 a none
-		c08Op(4, 0, 0, 0, 0),          // Get k0
-		c08Op(11, 0, 0, 0, 0),         // IsExpired k0
-		c08Op(6, 0, 0, 0, 0),          // DeleteExpired
-		c08Op(12, 6*ms, 0, 0, 0),      // Sleep 6ms
-		c08Op(5, 0, 0, 0, 0),          // Delete k0
-		c08Op(1, 0, 2, c08Hour, 0),    // Set k0 b 1h
-		c08Op(10, 1, -1, -1, 3*ms),    // MapToCache {k0:a} 3ms
+		c08Op(1, 0, 1, 3*ms, 0),    // Set k0 a 3ms
+		c08Op(1, 0, 2, 0, 0),       // Set k0 b default
+		c08Op(3, 0, 2, 2*ms, 0),    // Update k0 b 2ms
+		c08Op(3, 0, 1, 0, 0),       // Update k0 a default
+		c08Op(1, 1, 1, -1, 0),      // Set k1 a none
+		c08Op(4, 0, 0, 0, 0),       // Get k0
+		c08Op(11, 0, 0, 0, 0),      // IsExpired k0
+		c08Op(6, 0, 0, 0, 0),       // DeleteExpired
+		c08Op(12, 6*ms, 0, 0, 0),   // Sleep 6ms
+		c08Op(5, 0, 0, 0, 0),       // Delete k0
+		c08Op(1, 0, 2, c08Hour, 0), // Set k0 b 1h
+		c08Op(10, 1, -1, -1, 3*ms), // MapToCache {k0:a} 3ms
 	}
 	var scripts [][]int64
 	for _, e := range []int64{-1, 0, 3 * ms} {
@@ -823,6 +1106,85 @@ func genC08(g *Gen) {
 	}
 	c08EmitTimed(g, "timed", scripts, 12)
 
+	// --- extreme (timed): 1 ns / 2 ns / 1 us durations; deadlines next to MaxInt64 on either side of the
+	//     int64 wrap-around (absolute instants on the wire: the model adds what the code adds) ---
+	scripts = nil
+	tgen := time.Now().UnixNano()
+	for _, d := range []int64{1, 2, 1000, maxI64 - tgen - c08Hour, maxI64 - tgen + int64(time.Second), maxI64, 1 << 62} {
+		for _, e := range []int64{-1, 0, 1, maxI64 - tgen - c08Hour, maxI64} {
+			scripts = append(scripts, c08Input(1, e, 0, 3, [][]int64{
+				c08Op(1, 0, 1, d, 0),   // Set k0 a d
+				c08Op(2, 1, 2, 0, 0),   // SetDefault k1 b
+				c08Op(12, ms, 0, 0, 0), // Sleep 1 ms
+				c08Op(4, 0, 0, 0, 0),   // Get k0
+				c08Op(11, 0, 0, 0, 0),  // IsExpired k0
+				c08Op(11, 1, 0, 0, 0),  // IsExpired k1
+				c08Op(1, 0, 2, d, 0),   // Set k0 b d: succeeds iff the first one has expired
+				c08Op(3, 2, 1, d, 0),   // Update k2 a d
+				c08Op(12, ms, 0, 0, 0), // Sleep 1 ms
+				c08Op(9, 0, 0, 0, 0),   // Count
+				c08Op(6, 0, 0, 0, 0),   // DeleteExpired
+				c08Op(9, 0, 0, 0, 0),   // Count
+				c08Op(8, 0, 0, 0, 0),   // List
+			}))
+		}
+	}
+	c08EmitTimed(g, "extreme", scripts, 8)
+
+	// --- large (timed): DeleteExpired over hundreds of expired + live + never-expiring entries, mixed ---
+	// variant A: a quarter of the entries expires; variant B: most of them do
+	scripts = nil
+	type lv struct {
+		blocks, pe, pl, pn, extra int64 // per block: expiring / live / never; one more MapToCache of `extra` never-expiring entries
+		es                        []int64
+	}
+	bigB := int64(g.Pick(20, 60))
+	for _, v := range []lv{
+		{10, 10, 10, 10, 100, []int64{-1, 0, 1}},
+		{10, 26, 2, 2, 5, []int64{-1, 0, 1}},
+		{bigB, 10, 10, 10, 10 * bigB, []int64{-1}},
+		{bigB, 26, 2, 2, 5, []int64{0, 1}},
+	} {
+		dl := (40 + 4*v.blocks) * ms // long enough to store everything before the first deadline
+		for _, e := range v.es {
+			if e == 1 {
+				e = dl
+			}
+			var ops [][]int64
+			for b := int64(0); b < v.blocks; b++ {
+				ops = append(ops,
+					c08Op(15, b*30, v.pe, 1, dl),           // entries that expire in dl
+					c08Op(15, b*30+v.pe, v.pl, 1, c08Hour), // entries that stay live
+					c08Op(15, b*30+v.pe+v.pl, v.pn, 1, -1)) // entries that never expire
+			}
+			nx := v.blocks * 30
+			noexp := int64(-1)
+			if e <= 0 {
+				noexp = 0 // the default: no expiry either
+			}
+			ops = append(ops,
+				c08Op(14, nx, v.extra, 1, noexp), // one MapToCache of never-expiring entries
+				c08Op(9, 0, 0, 0, 0),
+				c08Op(6, 0, 0, 0, 0), // DeleteExpired before the deadlines: removes nothing
+				c08Op(9, 0, 0, 0, 0),
+				c08Op(12, dl+30*ms, 0, 0, 0), // Sleep past the deadlines
+				c08Op(11, 0, 0, 0, 0),        // IsExpired k0: true
+				c08Op(9, 0, 0, 0, 0),         // Count: everything still stored
+				c08Op(6, 0, 0, 0, 0),         // DeleteExpired: exactly the expired ones go
+				c08Op(9, 0, 0, 0, 0),
+				c08Op(8, 0, 0, 0, 0),         // List
+				c08Op(15, 0, 10, 5, c08Hour), // the first block's keys can be Set again
+				c08Op(6, 0, 0, 0, 0),
+				c08Op(9, 0, 0, 0, 0))
+			nk := nx + v.extra
+			if nk > 400 {
+				nk = 400
+			}
+			scripts = append(scripts, c08Input(1, e, 0, nk, ops))
+		}
+	}
+	c08EmitTimed(g, "large", scripts, 3)
+
 	// --- janitor: cleanup interval 5 / 10 ms ---
 	scripts = nil
 	for _, ci := range []int64{5 * ms, 10 * ms} {
@@ -852,12 +1214,35 @@ func genC08(g *Gen) {
 		}
 	}
 	c08EmitTimed(g, "janitor", scripts, 16)
+
+	// --- large (janitor): one tick of the cleanup goroutine sweeps a cache in which most of 300-600 entries
+	//     have expired; the live and the never-expiring ones must still be there ---
+	scripts = nil
+	for _, n := range []int64{300, int64(g.Pick(300, 1200))} {
+		for _, e := range []int64{-1, 0} {
+			ci := 10 * ms
+			dl := (30 + n/10) * ms
+			ops := [][]int64{
+				c08Op(15, 0, n, 1, dl),                       // n entries that expire in dl
+				c08Op(15, n, 5, 1, -1),                       // 5 that never expire
+				c08Op(15, n+5, 5, 1, c08Hour),                // 5 live
+				c08Op(2, n+10, 1, 0, 0),                      // SetDefault: no expiry either (default <= 0)
+				c08Op(12, dl+5*ci/2, 0, 0, 0),                // Sleep past the deadlines and two ticks
+				c08Op(13, 0, 4*ms+2*ci+c08Slack+15*ms, 0, 0), // Await k0 gone
+				c08Op(4, n, 0, 0, 0),                         // Get of a never-expiring entry
+				c08Op(4, n+5, 0, 0, 0),                       // Get of a live entry
+				c08Op(4, n+10, 0, 0, 0),
+			}
+			scripts = append(scripts, c08Input(2, e, ci, n+11, ops))
+		}
+	}
+	c08EmitTimed(g, "large", scripts, 2)
 }
 
 func init() {
 	register(&Prop{
-		ID: "C08",
-		Rule: "time-free: (a) every sequence up to length 2 (thorough 3) over the full 91-operation alphabet (3 keys x values {\"\",a,b} x durations {default,none,1h}; Set/SetDefault/Update/Get/Delete/IsExpired/DeleteExpired/Flush/List/Count/6 MapToCache maps), (b) each of the 7^3 stored states followed by every operation, (c) every sequence up to length 5 (thorough 6) over a 12-operation alphabet, in the configurations default {-1,0,1h} x cleanup {0,1h}; then random histories up to length 44 (thorough 204) over up to 5 keys; odd durations/configurations; timed: every script up to length 3 (thorough 4) over an 11-operation alphabet with 2-3 ms deadlines and 6 ms sleeps plus random placements, judged at the measured instants, discarded when a deadline lies inside a call's clock bracket; janitor: every script up to length 3 (thorough 4) over 9 operations with cleanup every 5/10 ms. Each case ends with Count, List and Get/IsExpired of every key. Non-trivial: at least one successful store and at least one of: an error result, a removal by Delete/Flush/DeleteExpired, an observed expiry.",
+		ID:       "C08",
+		Rule:     "time-free: (a) every sequence up to length 2 (thorough 3) over the full 91-operation alphabet (3 keys x values {\"\",a,b} x durations {default,none,1h}; Set/SetDefault/Update/Get/Delete/IsExpired/DeleteExpired/Flush/List/Count/6 MapToCache maps), (b) each of the 7^3 stored states followed by every operation, (c) every sequence up to length 5 (thorough 6) over a 12-operation alphabet, in the configurations default {-1,0,1h} x cleanup {0,1h}; then random histories up to length 44 (thorough 204) over up to 5 keys; odd durations/configurations; large: fixed and random histories of range operations over 100-2000 keys (n Sets with every fifth value rejected, MapToCache of 100-2000 entries over live and missing keys, n Deletes/Updates, DeleteExpired, Flush, refill, Count/List after each phase, Get/IsExpired of the first 400 keys at the end) and, timed, DeleteExpired over 300-800 (thorough 2400) entries, inserted interleaved, of which a quarter (variant A) or 85 % (variant B) expired 30 ms ago and the rest is live or never expires, and one janitor sweep over 300 (thorough 1200) expired entries next to live and never-expiring ones; extreme: durations/default expiries/cleanup intervals/keys/values at MaxInt64, MinInt64, +-2^62, -2, 7e18, 8e18 (time-free) and, timed at absolute instants, durations of 1 ns, 2 ns, 1 us and deadlines one hour below / one second above the int64 wrap-around of now+d; timed: every script up to length 3 (thorough 4) over a 12-operation alphabet with 2-3 ms deadlines and 6 ms sleeps plus random placements, judged at the measured instants, discarded when a deadline lies inside a call's clock bracket; janitor: every script up to length 3 (thorough 4) over 9 operations with cleanup every 5/10 ms. Each case ends with Count, List and Get/IsExpired of every key. Non-trivial: at least one successful store and at least one of: an error result, a removal by Delete/Flush/DeleteExpired, an observed expiry.",
 		Exec:     execC08,
 		Gen:      genC08,
 		Describe: describeC08,
